@@ -14,7 +14,23 @@
 (***************************************************************************)
 EXTENDS Integers, Sequences, FiniteSets, TLC
 
-CONSTANTS MaxIn, MaxOut, NPass
+CONSTANTS NinSet,        \* arities enumerated (e.g. 0..2, or {12}: names are matched to positions for EVERY arity)
+          NoutSet,       \* numbers of result leaves
+          UnusedSets,    \* sets of ignored positional inputs
+          NPass,
+          ReqFilter(_)   \* restriction of the request space of a configuration (TRUE = all)
+
+SmallNin == 0..2
+SmallNout == 1..2
+SmallUnused == SUBSET (0..1)
+NoFilter(r) == TRUE
+\* wide interface: twelve positional inputs (two-digit indices), custom names, three leaves with a repeated one
+WideNin == {12}
+WideNout == {1, 3}
+WideUnused == {{}, {3, 10}}
+WideFilter(r) == /\ r.fault = "none" /\ r.optRaiseAt = 0 /\ ~r.strict /\ ~r.param /\ r.nchwIn \in {"none", "first"}
+                 /\ r.nchwOut \in {"none", "first"} /\ r.inNames \in {"none", "ok"} /\ r.outNames \in {"none", "ok"}
+                 /\ r.outKind \in {"computed", "duplicate"}
 
 InNames == {"none", "ok", "dup", "wrong_len", "collide_param", "collide_output"}
 OutNames == {"none", "ok", "dup", "wrong_len", "collide_param"}
@@ -22,8 +38,8 @@ NchwSel == {"none", "first", "bad_index", "bad_rank", "dup_index"}
 Faults == {"none", "user_raises", "unsupported_primitive", "lowering_contract"}
 
 Requests ==
-    [nin : 0..MaxIn, nout : 1..MaxOut,
-     unused : SUBSET (0..(MaxIn - 1)),        \* positional inputs the callable ignores
+    [nin : NinSet, nout : NoutSet,
+     unused : UnusedSets,                     \* positional inputs the callable ignores
      param : BOOLEAN,                          \* one runtime parameter "p" in input_params
      paramUsed : BOOLEAN,
      inNames : InNames, outNames : OutNames,
@@ -43,7 +59,10 @@ WellFormedReq(r) ==
     /\ (r.inNames = "collide_output" => r.outNames = "ok")
     /\ (r.outKind = "alias_input" => r.nin >= 1 /\ 0 \notin r.unused)
     /\ (r.outKind = "duplicate" => r.nout >= 2)
-    /\ (r.outKind # "computed" => r.nchwOut = "none")
+    \* "duplicate": the LAST TWO leaves are one value; with three leaves the first may be layout-flagged
+    /\ (r.outKind \in {"alias_input", "constant"} => r.nchwOut = "none")
+    /\ (r.outKind = "duplicate" /\ r.nout = 2 => r.nchwOut = "none")
+    /\ ReqFilter(r)
     /\ (r.nchwIn # "none" => r.nin >= 1)
     /\ (r.nchwIn = "dup_index" => r.nin >= 1) /\ (r.nchwOut = "dup_index" => r.nout >= 1)
 
